@@ -22,7 +22,8 @@ def run(ctx):
     ctx.assumptions = ["struct layout across the library boundary is rustc's (see trusted base)"]
     ok, _ = ctx.coq_build("Boundary")
     if ok:
-        ctx.coq_props("Boundary", "Props_C19.v", required=["C19_boundary_ok_sound", "C19_code_ok_sound"])
+        ctx.coq_props("Boundary", "Props_C19.v", required=["C19_boundary_ok_sound", "C19_code_ok_sound", "C19_boundary_ok_complete",
+                                                                "C19_code_ok_complete"])
     if ctx.cargo_build("build-driver") is None or ctx.cargo_build("rt-driver") is None:
         return
     quick = ctx.tier == "quick"
